@@ -1,72 +1,120 @@
 (* C04 -- Failed bundles leave no trace.
    Model: Model/Rollback.v (micro-steps of the 14 doc actions in source order, apply_doc_action's saved_schema
-   restore, _undo_to_checkpoint, calc deltas that live in the summary).  Statements only; proofs are in
-   Proofs/Rollback_{proofs,actions,undo,run,witness}.v.
+   restore, ActionSummary + the flush of pending calc deltas that apply_user_actions performs before reverting
+   (f80d48c), _undo_to_checkpoint).  Statements only; proofs are in Proofs/Rollback_*.v.
    Documents are canonical (a column stores its non-default cells only), so "every table, the metadata and the
    schema are exactly as before" is Leibniz equality of `doc` (tables, Column objects and engine.schema). *)
 From stdpp Require Import gmap.
 Require Import Grist.Model.Rollback Grist.Proofs.Rollback_proofs Grist.Proofs.Rollback_run Grist.Proofs.Rollback_inside
-  Grist.Proofs.Rollback_witness.
+  Grist.Proofs.Rollback_flush Grist.Proofs.Rollback_calc Grist.Proofs.Rollback_witness.
 Open Scope Z_scope.
 
-(* The property at full strength: for EVERY micro-step index k, crashing the bundle there and rolling back to the
-   checkpoint succeeds and gives the document (and engine schema) of before the call. *)
-Definition C04_rollback_statement : Prop :=
-  forall ord (s : doc) (u0 : list action) (es : list event) (k : nat) st cur done,
-    wf s -> run_until_crash ord (init_state s u0) es k = Crashed st cur done ->
-    exists s_r, rollback ord (length u0) st = Some s_r /\ s_r = s /\ d_schema s_r = d_schema s.
+(* what the except branch of apply_user_actions computes after a crash before micro-step k of the bundle es *)
+Definition reverted (ord : name -> list name) (s : doc) (es : list event) (k : nat) (st : mstate) : option doc :=
+  rollback_flush ord st (sum_log (run_log ord (init_state s []) es k)).
 
-(* It is FALSE of the faithful model (and of the code: every witness below is replayed on the engine). *)
+(* The property at full strength: for EVERY micro-step index k, crashing the bundle there, flushing and rolling back
+   succeeds and gives the document (and engine schema) of before the call. *)
+Definition C04_rollback_statement : Prop :=
+  forall ord (s : doc) (es : list event) (k : nat) st cur done,
+    wf s -> run_until_crash ord (init_state s []) es k = Crashed st cur done ->
+    exists s_r, reverted ord s es k st = Some s_r /\ s_r = s /\ d_schema s_r = d_schema s.
+
+(* It is still FALSE of the faithful model (and of the code: each witness is replayed on the engine). *)
 Definition refuted (ord : name -> list name) (s : doc) (es : list event) (k : nat) : Prop :=
   wf s /\ exists st cur done,
-    run_until_crash ord (init_state s []) es k = Crashed st cur done /\ rollback ord 0 st ≠ Some s.
+    run_until_crash ord (init_state s []) es k = Crashed st cur done /\ reverted ord s es k st ≠ Some s.
 
-(* (i) crash strictly inside BulkUpdateRecord / BulkRemoveRecord: cells are written before the undo is appended *)
-Theorem C04_refuted_midaction : refuted w_ord w_doc w_update 1 /\ refuted w_ord w_doc w_remove 1.
-Proof. split; (split; [exact w_doc_wf|apply leaves_trace_spec]); [exact w_update_trace|exact w_remove_trace]. Qed.
-
-(* ... reachable without fault injection: BulkUpdateRecord naming an unknown second column *)
-Theorem C04_refuted_midaction_natural : refuted w_ord w_doc w_update_keyerror 5.
-Proof. split; [exact w_doc_wf|apply leaves_trace_spec; exact w_update_keyerror_trace]. Qed.
-
-(* (ii) a calc delta pending in the summary when a LATER action fails (crash between doc actions) *)
-Theorem C04_refuted_pending_calc : refuted w_ord w_doc w_calc 7.
-Proof. split; [exact w_doc_wf|apply leaves_trace_spec; exact w_calc_trace]. Qed.
+(* (i) crash strictly inside BulkRemoveRecord: rows are unset before the undo is appended *)
+Theorem C04_refuted_midaction : refuted w_ord w_doc w_remove 1.
+Proof. split; [exact w_doc_wf|apply leaves_trace_flush_spec; exact w_remove_trace]. Qed.
 
 (* (iii) crash inside a schema action after rebuild_usercode and before its undo: the saved_schema restore
    re-creates the destroyed Column object empty (RemoveColumn) or keeps the re-typed one (ModifyColumn) *)
 Theorem C04_refuted_schema_restore : refuted w_ord w_doc w_remove_column 3 /\ refuted w_ord w_doc w_to_formula 7.
 Proof.
-  split; (split; [exact w_doc_wf|apply leaves_trace_spec]); [exact w_remove_column_trace|exact w_to_formula_trace7].
+  split; (split; [exact w_doc_wf|apply leaves_trace_flush_spec]); [exact w_remove_column_trace|exact w_to_formula_trace7].
 Qed.
 
 (* (iv) crash inside a schema action after its undo was appended: restore and undo both revert it, the replayed
    undo fails its assert, the rollback raises and earlier actions stay applied *)
 Theorem C04_refuted_restore_conflict :
   wf w_doc /\ exists st cur done,
-    run_until_crash w_ord (init_state w_doc []) w_add_column 6 = Crashed st cur done /\ rollback w_ord 0 st = None.
-Proof. split; [exact w_doc_wf|apply rollback_raises_spec; exact w_add_column_raises]. Qed.
+    run_until_crash w_ord (init_state w_doc []) w_add_column 6 = Crashed st cur done /\
+    reverted w_ord w_doc w_add_column 6 st = None.
+Proof.
+  split; [exact w_doc_wf|]. pose proof w_add_column_flush_raises as H. unfold reverted.
+  destruct (run_until_crash w_ord (init_state w_doc []) w_add_column 6) as [st cur done|]; [|contradiction]. eauto.
+Qed.
 
 (* (v) ReplaceTableData: its undo reloads data columns only *)
 Theorem C04_refuted_replace_table_data : refuted w_ord w_doc w_replace 11.
-Proof. split; [exact w_doc_wf|apply leaves_trace_spec; exact w_replace_trace]. Qed.
+Proof. split; [exact w_doc_wf|apply leaves_trace_flush_spec; exact w_replace_trace]. Qed.
+
+(* (vi) crash between the cell write of a recalculation and its summary.add_changes: nothing recorded yet *)
+Theorem C04_refuted_inside_calc : refuted w_ord w_doc w_calc 3.
+Proof. split; [exact w_doc_wf|apply leaves_trace_flush_spec; exact w_calc_inside_trace]. Qed.
 
 Theorem C04_rollback_statement_is_false : ~ C04_rollback_statement.
 Proof.
-  intros H. destruct C04_refuted_pending_calc as (Hw & st & cur & done & Hrun & Hne).
-  destruct (H w_ord w_doc [] w_calc 7%nat st cur done Hw Hrun) as (s_r & Hr & -> & _). exact (Hne Hr).
+  intros H. destruct C04_refuted_midaction as (Hw & st & cur & done & Hrun & Hne).
+  destruct (H w_ord w_doc w_remove 1%nat st cur done Hw Hrun) as (s_r & Hr & -> & _). exact (Hne Hr).
 Qed.
+
+(* REGRESSION (were refutations before the repairs): no crash point of BulkUpdateRecord leaves a trace, also not
+   the KeyError for an unknown second column (6f648c6); the pending calc delta of
+   [UpdateRecord T 1 {A:10}, CopyFromColumn T B C, <raises>] is reverted at every event boundary (f80d48c). *)
+Example C04_fixed_midaction_update :
+  forallb (fun k => negb (leaves_trace_flush w_ord w_doc w_update k)) (seq 0 7) = true /\
+  leaves_trace_flush w_ord w_doc w_update_keyerror 5 = false.
+Proof. split; [exact w_update_no_trace|exact w_update_keyerror_no_trace]. Qed.
+
+Example C04_fixed_pending_calc :
+  forallb (fun k => negb (leaves_trace_flush w_ord w_doc w_calc k)) [0; 2; 4; 5; 6; 7]%nat = true /\
+  leaves_trace w_ord w_doc w_calc 7 = true.          (* the bare _undo_to_checkpoint alone would not *)
+Proof. split; [exact w_calc_flush_no_trace|exact w_calc_trace]. Qed.
 
 (* What IS proved, for all documents, all event sequences and all crash points of the stated kind:
    crash between doc actions (at most the schema clone of the next schema action has run; this includes a later
-   action failing its asserts) or ANYWHERE inside the undo-first action [Bulk]AddRecord (covered_point);
-   no calc delta pending in the summary; no ReplaceTableData in the bundle. *)
-Theorem C04_rollback_partial : forall ord (s : doc) (u0 : list action) (es : list event) (k : nat) st cur done,
+   action failing its asserts) or ANYWHERE inside the undo-first actions [Bulk]AddRecord and [Bulk]UpdateRecord
+   (covered_point); no calc delta pending in the summary; no ReplaceTableData in the bundle. *)
+Theorem C04_rollback_partial : forall ord (s : doc) (es : list event) (k : nat) st cur done,
+  wf s -> Forall no_replace_ev es ->
+  run_until_crash ord (init_state s []) es k = Crashed st cur done ->
+  ms_pending st = [] -> covered_point cur done ->
+  exists s_r, reverted ord s es k st = Some s_r /\ s_r = s /\ d_schema s_r = d_schema s.
+Proof. intros. exists s. split; [eapply rollback_flush_partial; eauto|split; reflexivity]. Qed.
+
+(* the same for the bare _undo_to_checkpoint with any undo prefix u0 (nested checkpoints, get_formula_value) *)
+Theorem C04_rollback_partial_bare : forall ord (s : doc) (u0 : list action) (es : list event) (k : nat) st cur done,
   wf s -> Forall no_replace_ev es ->
   run_until_crash ord (init_state s u0) es k = Crashed st cur done ->
   ms_pending st = [] -> covered_point cur done ->
-  exists s_r, rollback ord (length u0) st = Some s_r /\ s_r = s /\ d_schema s_r = d_schema s.
-Proof. intros. exists s. split; [eapply rollback_partial_covered; eauto|split; reflexivity]. Qed.
+  rollback ord (length u0) st = Some s.
+Proof. exact rollback_partial_covered. Qed.
+
+(* Pending calc deltas ARE rolled back by the flush.  Proved for bundles made of record updates and recalculation
+   batches of ONE column (t, c), in any order and number (UpdateRecord, CopyFromColumn between data columns, the
+   bundle of the old finding), at every event boundary (a later action failing), when no update of the bundle writes
+   (t, c).  NOT proved (tied to the engine by the harness's rollback prediction and enumerated on the implementation
+   only): several recomputed columns in one bundle; pending deltas together with record additions/removals or
+   schema actions in the same bundle (the new-row / gone-row filters, the front insertion and the original-name
+   logic of _changes_to_actions for renamed, removed or re-added columns and tables). *)
+Theorem C04_pending_calc_rolled_back : forall ord (s : doc) (t c : name) (es : list event) (k : nat) st cur,
+  wf s -> is_Some (d_tables s !! t ≫= fun tb => t_cols tb !! c) ->
+  Forall (upd_or_calc t c) es ->
+  run_until_crash ord (init_state s []) es k = Crashed st cur [] ->
+  reverted ord s es k st = Some s.
+Proof. exact pending_calc_rolled_back. Qed.
+
+Example C04_pending_calc_nonvacuous :
+  Forall (upd_or_calc T B) w_calc /\ is_Some (d_tables w_doc !! T ≫= fun tb => t_cols tb !! B) /\
+  match run_until_crash w_ord (init_state w_doc []) w_calc 7 with
+  | Crashed st None [] => ms_pending st <> [] | _ => False end.
+Proof.
+  split; [repeat constructor; simpl; intros [_ H]; repeat (apply elem_of_cons in H as [H|H]; [discriminate|]); inversion H|].
+  split; [vm_compute; eexists; reflexivity|]. vm_compute. discriminate.
+Qed.
 
 (* validation failure = crash before the first micro-step: identity, for every document and bundle *)
 Theorem C04_validation_failure : forall ord (s : doc) (u0 : list action) (es : list event) st cur done,
@@ -74,41 +122,20 @@ Theorem C04_validation_failure : forall ord (s : doc) (u0 : list action) (es : l
   rollback ord (length u0) st = Some s.
 Proof. exact rollback_validation_failure. Qed.
 
-(* REPAIRED variant of BulkUpdateRecord (notes/proposed_fixes/C04-BulkUpdateRecord-undo-first.diff: columns resolved and
-   undo appended before the first cell is written): for every document, every action argument and EVERY crash
-   point strictly inside it, replaying the already appended undo action gives the document back.  (Proved for this
-   one repaired action; the other refuted crash points have no small repair: see the report.) *)
-Theorem C04_repaired_update_rolled_back : forall ord d t rows vals u p l rest st',
-  wf d -> update_repaired d t rows vals = l ++ rest -> l <> [] ->
-  exec_all (MState d u p None) l = Some st' ->
-  exists a, ms_undo st' = u ++ [a] /\ ms_pending st' = p /\ ms_saved st' = None /\
-            apply_doc ord (ms_doc st') a = Some d.
-Proof. exact update_repaired_rolled_back. Qed.
-
-Example C04_repaired_nonvacuous :
-  exists l rest, update_repaired w_doc T [1; 2] [(A, [10; 20]); (C, [5; 6])] = l ++ rest /\ length l = 3%nat /\
-    is_Some (exec_all (MState w_doc [] [] None) l).
-Proof.
-  exists (take 3 (update_repaired w_doc T [1; 2] [(A, [10; 20]); (C, [5; 6])])),
-         (drop 3 (update_repaired w_doc T [1; 2] [(A, [10; 20]); (C, [5; 6])])).
-  split; [symmetry; apply take_drop|]. split; [vm_compute; reflexivity|]. vm_compute. eexists. reflexivity.
-Qed.
-
 (* every completed doc action keeps the document well-formed and is reverted by the undo it appended *)
 Theorem C04_action_undone : forall ord d a u p st',
   wf d -> no_replace a -> exec_all (MState d u p None) (doc_steps ord d a) = Some st' ->
   action_post ord d u p st'.
 Proof. exact action_undo. Qed.
 
-(* non-vacuity: the hypotheses of C04_rollback_partial hold on a three-action bundle (update, rename column,
-   remove table) whose last action fails its assert, and the conclusion is observed *)
+(* non-vacuity: a four-action bundle whose last action fails its assert *)
 Example C04_partial_nonvacuous :
   let es := [EDoc (UpdateRecord T 1 [(A, 10)]); EDoc (RenameColumn T A N); EDoc (RemoveTable T); EDoc (RemoveTable T)] in
   wf w_doc /\ Forall no_replace_ev es /\
   match run_until_crash w_ord (init_state w_doc []) es 100 with
   | Crashed st (Some (EDoc (RemoveTable _))) [MSave] =>
       ms_pending st = [] /\ length (ms_undo st) = 4%nat /\ covered_point (Some (EDoc (RemoveTable T))) [MSave] /\
-      bool_decide (rollback w_ord 0 st = Some w_doc) = true
+      bool_decide (reverted w_ord w_doc es 100 st = Some w_doc) = true
   | _ => False
   end.
 Proof.
@@ -116,11 +143,13 @@ Proof.
   split; [reflexivity|]. split; [reflexivity|]. split; [left; repeat constructor|reflexivity].
 Qed.
 
-(* ... and inside BulkAddRecord: crash after its two rows were added and one cell was written *)
-Example C04_partial_inside_add_nonvacuous :
-  match run_until_crash w_ord (init_state w_doc []) w_add 5 with
-  | Crashed st (Some (EDoc a)) done =>
-      is_add_record a /\ length done = 5%nat /\ ms_pending st = [] /\ bool_decide (rollback w_ord 0 st = Some w_doc) = true
-  | _ => False
+(* ... inside BulkAddRecord (two rows added, one cell written) and inside BulkUpdateRecord (three cells written) *)
+Example C04_partial_inside_nonvacuous :
+  match run_until_crash w_ord (init_state w_doc []) w_add 5, run_until_crash w_ord (init_state w_doc []) w_update 4 with
+  | Crashed st (Some (EDoc a)) done, Crashed st2 (Some (EDoc a2)) done2 =>
+      is_undo_first a /\ length done = 5%nat /\ ms_pending st = [] /\
+      is_undo_first a2 /\ length done2 = 4%nat /\ ms_pending st2 = [] /\
+      bool_decide (reverted w_ord w_doc w_update 4 st2 = Some w_doc) = true
+  | _, _ => False
   end.
-Proof. vm_compute. repeat split. Qed.
+Proof. vm_compute. repeat split; auto. Qed.
